@@ -982,11 +982,55 @@ class PathWalker:
                     | ('arm', scrut_expr, pat, arm_index, all_arm_pats) | ('loop',)
     env:   dict local-id -> canonical init expr for immutable `let` bindings (hcanon form)."""
 
-    def __init__(self, visit):
+    def __init__(self, visit, facts=None, inline=None):
         self.visit = visit
+        self.facts = facts
+        self.inline = inline or set()      # crate fn paths / closure defs to walk in the caller's context
+        self.depth = 0
+        self.root_fn = None
+        self.cur_fn = None
 
     def walk_fn(self, fn):
+        self.root_fn = self.cur_fn = fn
         self.expr(fn.hir['value'], (), {})
+
+    def _inline_call(self, e, conds, env):
+        """walk the body of an inlinable helper / closure in the context of this call"""
+        if self.facts is None or self.depth >= 3:
+            return
+        k = e.get('k')
+        target, args, env2 = None, [], None
+        if k == 'mcall' and e.get('path') in self.inline and e.get('path') in self.facts.fns:
+            target = self.facts.fns[e['path']]
+            args = [e['recv']] + list(e['args'])
+        elif k == 'call' and e['f'].get('k') == 'path':
+            f = e['f']
+            if f.get('res') == 'local' and isinstance(env.get(f.get('id')), tuple) and env[f['id']][0] == 'closure':
+                d = env[f['id']][1]
+                if d in self.inline and d in self.facts.fns:
+                    target = self.facts.fns[d]
+                    args = list(e['args'])
+                    env2 = dict(env)        # captured variables keep their ids
+            elif f.get('path') in self.inline and f.get('path') in self.facts.fns:
+                target = self.facts.fns[f['path']]
+                args = list(e['args'])
+        if target is None:
+            return
+        if env2 is None:
+            env2 = {}
+        params = target.hir.get('params', [])
+        # closures: first HIR param list excludes the environment; fns: plain binds
+        for pat, a in zip(params, args):
+            if pat.get('k') == 'bind':
+                env2[pat['id']] = hcanon(a, env)
+        saved = self.cur_fn
+        self.cur_fn = target
+        self.depth += 1
+        try:
+            self.expr(target.hir['value'], conds, env2)
+        finally:
+            self.depth -= 1
+            self.cur_fn = saved
 
     def block(self, b, conds, env):
         env = dict(env)
@@ -999,9 +1043,8 @@ class PathWalker:
                 if 'else' in s:
                     self.block(s['else'], conds + (('let', pat, s.get('init'), False),), env)
                     conds = conds + (('let', pat, s.get('init'), True),)
-                if pat.get('k') == 'bind' and 'init' in s and 'Mut' not in pat.get('mode', '') \
-                        and 'mut' not in pat.get('mode', '').lower().replace('bindingmode(no, not)', ''):
-                    env[pat['id']] = hcanon(s['init'], env)
+                if pat.get('k') == 'bind' and 'init' in s and strip_refs(s['init']).get('k') == 'closure':
+                    env[pat['id']] = ('closure', strip_refs(s['init'])['def'])
                 elif pat.get('k') == 'bind' and 'init' in s and pat.get('mode', '').endswith('Not)'):
                     env[pat['id']] = hcanon(s['init'], env)
             else:
@@ -1009,12 +1052,12 @@ class PathWalker:
                 self.expr(e, conds, env)
                 ee = strip_refs(e)
                 if ee.get('k') == 'if' and 'else' not in ee and always_diverges(ee['then']):
-                    conds = conds + (('if', ee['cond'], False),)
+                    conds = conds + (('if', ee['cond'], False, dict(env)),)
                 elif ee.get('k') == 'if' and 'else' in ee:
                     if always_diverges(ee['then']) and not always_diverges(ee['else']):
-                        conds = conds + (('if', ee['cond'], False),)
+                        conds = conds + (('if', ee['cond'], False, dict(env)),)
                     elif always_diverges(ee['else']) and not always_diverges(ee['then']):
-                        conds = conds + (('if', ee['cond'], True),)
+                        conds = conds + (('if', ee['cond'], True, dict(env)),)
         if b.get('tail') is not None:
             self.expr(b['tail'], conds, env)
 
@@ -1023,6 +1066,8 @@ class PathWalker:
             return
         k = e['k']
         self.visit(e, conds, env)
+        if k in ('call', 'mcall') and self.inline:
+            self._inline_call(e, conds, env)
         if k == 'block':
             self.block(e, conds, env)
         elif k == 'if':
@@ -1034,9 +1079,9 @@ class PathWalker:
                 if 'else' in e:
                     self.expr(e['else'], conds + (('let', cc['pat'], cc['init'], False),), env)
             else:
-                self.expr(e['then'], conds + (('if', c, True),), env)
+                self.expr(e['then'], conds + (('if', c, True, dict(env)),), env)
                 if 'else' in e:
-                    self.expr(e['else'], conds + (('if', c, False),), env)
+                    self.expr(e['else'], conds + (('if', c, False, dict(env)),), env)
         elif k == 'match':
             self.expr(e['scrut'], conds, env)
             pats = [a['pat'] for a in e['arms']]
@@ -1044,7 +1089,7 @@ class PathWalker:
                 c2 = conds + (('arm', e['scrut'], a['pat'], i, pats),)
                 if 'guard' in a:
                     self.expr(a['guard'], c2, env)
-                    c2 = c2 + (('if', a['guard'], True),)
+                    c2 = c2 + (('if', a['guard'], True, dict(env)),)
                 self.expr(a['body'], c2, env)
         elif k == 'loop':
             self.block(e['body'], conds + (('loop',),), env)
@@ -1084,7 +1129,9 @@ def flatten_conds(conds, env):
             out.append((c, pol))
     for cd in conds:
         if cd[0] == 'if':
-            add(hcanon(cd[1], env), cd[2])
+            # the condition is canonicalised in the environment in which it was evaluated (it may stem from a
+            # caller when the site was reached through an inlined helper)
+            add(hcanon(cd[1], cd[3] if len(cd) > 3 else env), cd[2])
     return out
 
 
@@ -1199,3 +1246,97 @@ def inline_calls(c, facts, depth=0):
                 return inline_calls(body, facts, depth + 1)
         return ('call', c[1], args)
     return tuple(inline_calls(x, facts, depth) for x in c)
+
+
+
+# --------------------------------------------------------------------------- function exits with path conditions
+
+
+class _ExitWalker(PathWalker):
+    """PathWalker that additionally reports every value a fn can return: explicit `return x` and the
+    expressions in tail position, each with the path conditions (early-return guards included)."""
+
+    def __init__(self):
+        self.exits = []
+        super().__init__(self._visit)
+
+    def _visit(self, e, conds, env):
+        if e.get('k') == 'ret' and 'x' in e:
+            self.exits.append((e['x'], conds, dict(env)))
+
+    def walk_fn(self, fn):
+        self.tail(fn.hir['value'], (), {})
+
+    def tail(self, e, conds, env):
+        e0 = strip_refs(e) if isinstance(e, dict) else e
+        if not isinstance(e0, dict):
+            return
+        k = e0.get('k')
+        if k == 'block':
+            # statements: ordinary walk with guard accumulation; tail: recurse in tail position
+            env = dict(env)
+            conds = tuple(conds)
+            for s in e0.get('stmts', []):
+                conds, env = self._stmt(s, conds, env)
+            if e0.get('tail') is not None:
+                self.tail(e0['tail'], conds, env)
+            return
+        if k == 'if':
+            self.expr(e0['cond'], conds, env)
+            c = strip_refs(e0['cond'])
+            if c.get('k') == 'letexpr':
+                self.tail(e0['then'], conds + (('let', c['pat'], c['init'], True),), env)
+                if 'else' in e0:
+                    self.tail(e0['else'], conds + (('let', c['pat'], c['init'], False),), env)
+            else:
+                self.tail(e0['then'], conds + (('if', e0['cond'], True, dict(env)),), env)
+                if 'else' in e0:
+                    self.tail(e0['else'], conds + (('if', e0['cond'], False, dict(env)),), env)
+            return
+        if k == 'match' and e0.get('source') != 'ForLoopDesugar':
+            self.expr(e0['scrut'], conds, env)
+            pats = [a['pat'] for a in e0['arms']]
+            for i, a in enumerate(e0['arms']):
+                c2 = conds + (('arm', e0['scrut'], a['pat'], i, pats),)
+                if 'guard' in a:
+                    c2 = c2 + (('if', a['guard'], True, dict(env)),)
+                self.tail(a['body'], c2, env)
+            return
+        if k == 'ret':
+            self.expr(e0, conds, env)
+            return
+        self.expr(e0, conds, env)
+        self.exits.append((e0, conds, dict(env)))
+
+    def _stmt(self, s, conds, env):
+        # mirror of PathWalker.block for one statement, returning the updated (conds, env)
+        if s['k'] == 'let':
+            if 'init' in s:
+                self.expr(s['init'], conds, env)
+            pat = s['pat']
+            if 'else' in s:
+                self.block(s['else'], conds + (('let', pat, s.get('init'), False),), env)
+                conds = conds + (('let', pat, s.get('init'), True),)
+            if pat.get('k') == 'bind' and 'init' in s and pat.get('mode', '').endswith('Not)'):
+                env[pat['id']] = hcanon(s['init'], env)
+        else:
+            e = s['e']
+            self.expr(e, conds, env)
+            ee = strip_refs(e)
+            if ee.get('k') == 'if' and 'else' not in ee and always_diverges(ee['then']):
+                conds = conds + (('if', ee['cond'], False, dict(env)),) if strip_refs(ee['cond']).get('k') != 'letexpr' else \
+                    conds + (('let', strip_refs(ee['cond'])['pat'], strip_refs(ee['cond'])['init'], False),)
+            elif ee.get('k') == 'if' and 'else' in ee:
+                cc = strip_refs(ee['cond'])
+                if always_diverges(ee['then']) and not always_diverges(ee['else']):
+                    conds = conds + ((('if', ee['cond'], False, dict(env)),) if cc.get('k') != 'letexpr' else (('let', cc['pat'], cc['init'], False),))
+                elif always_diverges(ee['else']) and not always_diverges(ee['then']):
+                    conds = conds + ((('if', ee['cond'], True, dict(env)),) if cc.get('k') != 'letexpr' else (('let', cc['pat'], cc['init'], True),))
+        return conds, env
+
+
+def fn_exits(fn):
+    """[(value expr node, conds, env)] for every way fn can return a value"""
+    w = _ExitWalker()
+    w.walk_fn(fn)
+    return w.exits
